@@ -876,9 +876,11 @@ def gen_spec(
     allow_chain=True,
     allow_same_trans_conf=True,
     allow_enable=True,
+    nonex_rate=3,
+    min_trans=1,
 ):
     nm = draw(st.integers(1, max_methods))
-    nt = draw(st.integers(1, max_trans))
+    nt = draw(st.integers(min_trans, max_trans))
     two_mods = allow_mods and draw(st.integers(0, 3)) == 0
     schedv = sched or draw(st.sampled_from(["eager", "eager", "rr"]))
     if schedv == "rr":
@@ -886,7 +888,7 @@ def gen_spec(
         allow_rdep = False
     bodies = []
     for i in range(nm):
-        nonex = draw(st.integers(0, 9)) < 3
+        nonex = draw(st.integers(0, 9)) >= 10 - nonex_rate
         iw = draw(st.sampled_from([0, 0, 1, 2])) if allow_data else 0
         ow = draw(st.sampled_from([0, 0, 1, 2])) if allow_data else 0
         val = None
